@@ -4,7 +4,7 @@ as exactly the slice of entries it consumed; the loop consumes every entry exact
 namespace Zc.Wire.Encode
 open Zc Zc.Wire Zc.Wire.Strict
 
-/-- messages inside the property's quantifier (NSEC records excluded, see `WFAns`) -/
+/-- messages inside the property's quantifier -/
 structure WFMsg (m : Msg) : Prop where
   questions : ∀ q ∈ m.questions, WFQuestion q
   answers : ∀ x ∈ m.answers, WFAns x
